@@ -775,8 +775,12 @@ macro_rules! suite {
                         de_json,
                     )?;
                     let k = <$ksf as KsfMake>::make(ksf);
-                    let params =
-                        ClientRegistrationFinishParameters::<$name>::new(ids_of(ids), k.as_ref());
+                    // both spellings the API offers: the constructor and the struct literal
+                    let params = if pw.len() % 2 == 0 {
+                        ClientRegistrationFinishParameters::<$name>::new(ids_of(ids), k.as_ref())
+                    } else {
+                        ClientRegistrationFinishParameters::<$name> { identifiers: ids_of(ids), ksf: k.as_ref() }
+                    };
                     let r = st.finish(rng, pw, resp, params).map_err(op_err)?;
                     Ok(RegFinishOut {
                         upload: live(Kind::RegUpload, r.message),
@@ -903,8 +907,11 @@ macro_rules! suite {
                         de_json,
                     )?;
                     let k = <$ksf as KsfMake>::make(ksf);
-                    let params =
-                        ClientLoginFinishParameters::<$name>::new(ctx, ids_of(ids), k.as_ref());
+                    let params = if pw.len() % 2 == 0 {
+                        ClientLoginFinishParameters::<$name>::new(ctx, ids_of(ids), k.as_ref())
+                    } else {
+                        ClientLoginFinishParameters::<$name> { context: ctx, identifiers: ids_of(ids), ksf: k.as_ref() }
+                    };
                     let r = st.finish(pw, resp, params).map_err(op_err)?;
                     Ok(LoginFinishOut {
                         fin: live(Kind::CredFin, r.message),
